@@ -41,8 +41,8 @@ CHECKS = {
    text="Exhaustive with state hashing over sends, deliveries, breaks keeping any prefix of the in-flight frames, EOF/reset/OSError notices and reconnect+Logon up to the stated bound; each explored behaviour is executed on the real objects (real reader and heartbeat tasks under a virtual clock) and extended by a settle suffix, so the quiescence clause (both ACTIVE, counters cross-equal, every accepted message delivered exactly once in order) is evaluated on the real code after every schedule; random walks of up to 120 events add mid-frame breaks.",
    design_ref="5/C07", note="Link model: FIFO, loses a suffix of the in-flight frames at a break; writes after a break vanish and drain raises. A send that raised may or may not arrive later (the property speaks about accepted sends). " + COMMON_NOTE),
  "C09": dict(engine="Net",
-   technique="same TLA+ two-endpoint model with Restart actions; clauses T1 (restored counters), T2 (no MsgSeqNum reused for a different message, over the whole wire history), T4 (no ResendRequest when nothing was lost) plus the C07 clauses after the restart; file-backed journals reopened by a fresh Journaler; TLC evaluates recorded steps",
-   text="Graceful restarts of either endpoint at every quiescent point of the bounded model and in random walks (file journals, new connection object over the reopened file), followed by reconnect, Logon and settle; TLC self-check: with the stored-inbound-lag flag the model violates T1. Kill points inside a send / inside inbound processing are covered at the journal level by C08 (every statement boundary) and by the journal-before-write order checked in C05/C14; explicit mid-handler kills of a whole endpoint are listed as future work in DESIGN.md.",
+   technique="same TLA+ two-endpoint model with Restart actions; clauses T1 (restored counters), T2 (no MsgSeqNum reused for a different message, over the whole wire history), T4 (no ResendRequest when nothing was lost) plus the C07 clauses after the restart; file-backed journals reopened by a fresh Journaler; TLC evaluates recorded steps; kill points inside a handler: one endpoint killed at every journal-commit / transport-write / drain boundary of every alphabet event, restarted from the file journal, TLC (spec/KillEval.tla) decides T1c (restored counters are the live counters at some boundary of the in-flight operation) and T2 over both incarnations",
+   text="Graceful restarts of either endpoint at every quiescent point of the bounded model and in random walks (file journals, new connection object over the reopened file), followed by reconnect, Logon and settle; TLC self-check: with the stored-inbound-lag flag the model violates T1. Kill points inside a send / inside inbound processing: for (prefix x every event of the session alphabet) the real endpoint is killed at each boundary before/after every journal commit, before/after every transport write and after every drain (one killed-and-restarted run per boundary; statement-level crash points of the journal API itself are exhaustive in C08).",
    design_ref="5/C09", note="Restart = tasks cancelled, journal object dropped, new Journaler on the same file, new connection object. " + COMMON_NOTE),
  "C12": dict(engine="Heartbeat",
    technique="TLA+ model of the watchdog in discrete virtual time (spec/Heartbeat.tla, unit 1/4 s, wake-up phase as a constant) model-checked by TLC against clauses W1a-W5 (spec/HeartbeatProps.tla); every behaviour of the bounded model replayed on the real heartbeat_timer_task + reader under a virtual clock; recorded steps evaluated by TLC (spec/HeartbeatEval.tla)",
